@@ -8,7 +8,10 @@ def _nontrivial(op, out):
 
 PROP = dict(
     lean_modules=["Octo.Props.C25"],
-    required_theorems=[],
+    required_theorems=["Octo.C25.json_string_roundtrip", "Octo.C25.json_int_exact", "Octo.C25.json_roundtrip",
+                       "Octo.C25.json_value_matches", "Octo.C25.json_line", "Octo.C25.json_output",
+                       "Octo.C25.csv_field_roundtrip", "Octo.C25.csv_roundtrip", "Octo.C25.csv_value", "Octo.C25.csv_output",
+                       "Octo.C25.C25_full", "Octo.C25.raw_string_refuted"],
     nontrivial=_nontrivial,
     rule="ops: json/csv = a schema and 0..3 rows through the real JSONFormatter / CSVFormatter (bytes compared with the model, "
          "then decoded by the Lean RFC 8259 / RFC 4180 readers and matched against the row); ejson/ecsv = the same through "
